@@ -269,6 +269,50 @@ def rule_header_lines(ctx):
     ok = bool(inc_blocks) and sw is not None and all(sw[2] in dom.get(b, set()) for b in inc_blocks) and \
         all(not any(f in dom.get(b, set()) for f in sw[1]) for b in inc_blocks)
     ctx.check(ok, "R02.4", "index-on-success", "the header index is incremented only under the success edge of the line's try_write (R01.4)", loc=body_loc(dw))
+    # the line loop is left only when the lines are exhausted or a line did not fit (its try_write failed): any
+    # other exit gives up on a line without attempting it, and "overflow exactly when not even the next line fits"
+    # no longer holds (a length pre-check is reported even if its arithmetic is right: that it agrees with the
+    # rollback is a string-length argument this analysis does not make)
+    succ = dw.succ_map()
+    tw = [bb for bb, t in dw.calls() if short(callee_path(t) or "").endswith("try_write")]
+    nx = [bb for bb, t in dw.calls() if short(callee_path(t) or "").endswith("Iterator>::next") or short(callee_path(t) or "").endswith("Iterator::next")]
+    okexits = False
+    detail = []
+    if len(tw) == 1 and len(nx) >= 1:
+        def reach(src):
+            seen, work = set(), [src]
+            while work:
+                x = work.pop()
+                for y in succ[x]:
+                    if y not in seen:
+                        seen.add(y)
+                        work.append(y)
+            return seen
+        fwd = reach(tw[0])
+        cyc = set(x for x in fwd if tw[0] in reach(x))
+        exits = [(x, y) for x in cyc for y in succ[x] if y not in cyc and not dw.blocks[y].get("cleanup")]
+        tw_dest = dw.term(tw[0])["dest"]["local"]
+        nx_dests = set(dw.term(b)["dest"]["local"] for b in nx)
+
+        def switch_source(x):
+            t = dw.term(x)
+            if t["k"] != "switch":
+                return None
+            loc = t["discr"].get("place", {}).get("local")
+            if loc == tw_dest:
+                return "fit"
+            for s_ in reversed(dw.blocks[x]["stmts"]):
+                if s_["k"] == "assign" and s_["place"]["local"] == loc and not s_["place"]["proj"]:
+                    if s_["rv"]["k"] == "discriminant" and s_["rv"]["place"]["local"] in nx_dests:
+                        return "exhausted"
+                    if s_["rv"]["k"] == "use" and s_["rv"]["op"].get("place", {}).get("local") == tw_dest:
+                        return "fit"
+            return None
+        kinds = [(x, y, switch_source(x)) for x, y in exits]
+        okexits = bool(cyc) and all(k in ("fit", "exhausted") for _, _, k in kinds) and {k for _, _, k in kinds} == {"fit", "exhausted"}
+        detail = ["exit bb%d->bb%d: %s" % (x, y, k or "not the iterator's end nor the line's try_write result") for x, y, k in kinds]
+    ctx.check(okexits, "R02.5", "line-loop-exits", "the header line loop stops only when the lines are exhausted or a line's all-or-nothing write "
+              "failed (no line is given up without being attempted)", loc=body_loc(dw), detail=detail)
     # other phases emit nothing
     I3 = _mk(prog)
     quiet = True
